@@ -124,7 +124,7 @@ def shard_main(pid, tier, shard, nshards, out_path, budget_s, quota, verif_seed)
                 break
             seed = scenario_seed(verif_seed, pid, idx)
             rng = random.Random(seed)
-            rec = {'idx': idx, 'seed': seed, 'hashseed': hs, 'shard': shard}
+            rec = {'idx': idx, 'seed': seed, 'hashseed': hs, 'shard': shard, 'seq': n}
             try:
                 faulthandler.dump_traceback_later(600, exit=True)
                 scn = mod.gen(rng, tier, idx)
@@ -146,6 +146,53 @@ def shard_main(pid, tier, shard, nshards, out_path, budget_s, quota, verif_seed)
     shutil.rmtree(base, ignore_errors=True)
     real_stdout.write('shard %d done %d\n' % (shard, n))
     return 0
+
+
+def _confirm_with_history(pid, rp, rpath, r, records, root, max_trials=30):
+    """
+    The violation did not reproduce from its own scenario in a fresh process: it may depend on what ran EARLIER in
+    the shard's process (state that outlives a run).  Try the scenario after growing suffixes of the shard's earlier
+    scenarios, then drop predecessors one at a time while it still reproduces.  The replay file gets a 'history'.
+    """
+    preds = sorted((x for x in records if x.get('shard') == r.get('shard') and 'scn' in x and
+                    x.get('hashseed') == r.get('hashseed') and x.get('seq', -1) < r.get('seq', -1)),
+                   key=lambda x: x['seq'])
+    if not preds:
+        return False
+
+    def attempt(hist):
+        cand = dict(rp, history=[h['scn'] for h in hist], history_indices=[h['idx'] for h in hist])
+        with open(rpath, 'w') as f:
+            json.dump(cand, f, indent=1, default=_jsonable)
+        env = dict(os.environ, VERIF_SCRATCH=os.path.join(root, 'confirm_h'))
+        try:
+            return subprocess.call([PY, os.path.join(VERIF, 'check.py'), pid, '--replay', rpath], env=env,
+                                   stdout=subprocess.DEVNULL, stderr=subprocess.DEVNULL,
+                                   timeout=1800) == EXIT_VIOLATION
+        except subprocess.TimeoutExpired:
+            return False
+    k, hist, trials = 1, None, 0
+    while True:
+        trials += 1
+        if attempt(preds[-k:]):
+            hist = preds[-k:]
+            break
+        if k >= len(preds):
+            break
+        k = min(len(preds), k * 2)
+    if hist is None:
+        with open(rpath, 'w') as f:
+            json.dump(rp, f, indent=1, default=_jsonable)
+        return False
+    i = 0
+    while i < len(hist) and len(hist) > 1 and trials < max_trials:
+        trials += 1
+        cand = hist[:i] + hist[i + 1:]
+        if attempt(cand):
+            hist = cand
+        else:
+            i += 1
+    return attempt(hist)
 
 
 def _jsonable(o):
@@ -181,9 +228,17 @@ def replay_main(pid, path, quiet=False):
     redirect_std(os.path.join(base, 'sim.log'))
     prepare_process()
     mod = load_prop(pid)
-    if hasattr(mod, 'replay'):
+    if hasattr(mod, 'replay') and not rp.get('history'):
         res = mod.replay(rp, os.path.join(base, 's'))
     else:
+        # a history: scenarios that ran earlier in the same process, on the same paths (process-lifetime state such
+        # as caches keyed by path survives from one run to the next); only the last one is judged
+        for h in rp.get('history') or []:
+            try:
+                run_one(mod, h, os.path.join(base, 's'))
+            except BaseException as e:
+                if isinstance(e, KeyboardInterrupt):
+                    raise
         res = run_one(mod, rp['scenario'], os.path.join(base, 's'))
     shutil.rmtree(base, ignore_errors=True)
     want = rp['violation']['cls']
@@ -393,6 +448,10 @@ def check_main(pid, tier):
         rc = subprocess.call([PY, os.path.join(VERIF, 'check.py'), pid, '--replay', rpath],
                              env=env, stdout=subprocess.DEVNULL, stderr=subprocess.DEVNULL,
                              timeout=1200)
+        with_history = False
+        if rc != EXIT_VIOLATION and 'hashseeds' not in v:
+            with_history = _confirm_with_history(pid, rp, rpath, r, records, root)
+            rc = EXIT_VIOLATION if with_history else rc
         if rc != EXIT_VIOLATION:
             unconfirmed.append((cls, rpath, v))
             continue
@@ -402,7 +461,7 @@ def check_main(pid, tier):
             continue
         # minimise, then confirm the minimised file
         mpath = rpath[:-5] + '.min.json'
-        if os.environ.get('VERIF_NO_MINIMISE') != '1':
+        if os.environ.get('VERIF_NO_MINIMISE') != '1' and not with_history:
             try:
                 env = dict(os.environ, VERIF_SCRATCH=os.path.join(root, 'minimise'))
                 subprocess.call([PY, os.path.join(VERIF, 'check.py'), pid, '--minimise', rpath, mpath],
